@@ -22,7 +22,7 @@ CHECKS = {
             "DESIGN.md §5 C02", "stepsim"),
     "C04": ("fault_enumeration",
             "deterministic simulation with crash-point enumeration: every durable-write boundary of a production step (nested depth 2-3) on the real aggregator over a journalled simulated disk; restart with real NewManager; bounded-liveness and exposed-block oracles",
-            "For seeded history prefixes every durable-write boundary of the target production step is a crash point and, for each, every boundary of the first recovery production (depth 3 in part of thorough); each member is executed from scratch, restarted with the real start-up code, must produce within 3 steps, keep every committed/published block, and end with a valid chain whose height/state/blocks agree. Exhaustive over boundaries of the enumerated steps, sampled over histories.",
+            "For seeded history prefixes every durable-write boundary of the target production step is a crash point and, for each, every boundary of the first recovery production (depth 3 in part of thorough); each member is executed from scratch, restarted with the real start-up code, must produce within 3 steps, keep every committed/published block, and end with a valid chain whose height/state/blocks agree. An eighth of the families are whole-node families: the sequencer node is a real node.FullNode (P2P client, go-header header/data stores on the same simulated disk, all loops) with an optional syncing peer over a libp2p mocknet; after a seeded warm-up the (k+1)-th durable write of any component kills the incarnation, and the node restarted on the durable image must stay up and commit at least 3 blocks in 12 block times (k until the crash no longer fires; write order is the Go scheduler's, replay best-effort). Exhaustive over boundaries of the enumerated steps, sampled over histories.",
             "Crash = process death with ordered durable writes and atomic batches. The cache-file crash states of the shutdown save are enumerated in every run from an strace recording of the real SaveCache (every prefix of the recorded file operations plus cuts inside each write), so the tree is judged on its own system calls; needs strace (present in the sandbox; if missing the sub-check reports that in the evidence and is skipped).",
             "DESIGN.md §5 C04", "stepsim"),
     "C05": ("fault_enumeration",
@@ -93,7 +93,7 @@ CHECKS = {
             "DESIGN.md §5 C10", "stepsim"),
     "C13": ("exploration",
             "whole-node simulation under the synctest fake clock with the race detector: all background loops of an aggregator and a full node as real concurrent goroutines against simulated DA/execution/disk, seeded stimuli, latencies (time dilation), DA faults and stop instants; schedule-independent oracles",
-            "Per run the seed fixes block/DA times, lazy/normal mode, pending limit, genesis in the past or future, transaction arrivals, DA fault script, DA and execution latencies, run length and the stop instant (biased into the start-up delay). Oracles valid on every schedule: no race-detector report, every worker returns within 1 s of simulated time after the stop (never-stopping workers are reported through an emergency path), and post-mortem C01 chain validity, C02 prefix equality, C06 submission/watermark soundness, C07 finalize order and bound. Directed: the real header/data sync services receive their first item (and, after a restart, three further headers) while other tasks look up the store's head; all 2^11 choice prefixes of a park-and-release scheduler over the datastore operations are run in child processes and none may end the process. Sampling of interleavings, not proof.",
+            "Per run the seed fixes block/DA times, lazy/normal mode, pending limit, genesis in the past or future, transaction arrivals, DA fault script, DA and execution latencies, run length and the stop instant (biased into the start-up delay). Oracles valid on every schedule: no race-detector report, every worker returns within 1 s of simulated time after the stop (never-stopping workers are reported through an emergency path), and post-mortem C01 chain validity, C02 prefix equality, C06 submission/watermark soundness, C07 finalize order and bound. A third of the whole-node scenarios are restart timelines (run, transactions, clean stop, kill, start again on the durable image, P2P cut/heal, DA faults, then a fault-free final phase): every stop must return within the shutdown budget, no node may shut itself down, and every full node must reach the height the proposer had when the final phase began. Directed: the real header/data sync services receive their first item (and, after a restart, three further headers) while other tasks look up the store's head; all 2^11 choice prefixes of a park-and-release scheduler over the datastore operations are run in child processes and none may end the process. Sampling of interleavings, not proof.",
             "Two halves, both run by bin/check C13: (1) Manager-level configuration with the race detector (all ten loops of an aggregator and a full node as concurrent goroutines; P2P replaced by a gossip goroutine); (2) whole node.FullNode objects (real Run, P2P client, go-header/gossipsub sync services over a libp2p mocknet, shutdown sequence) WITHOUT the race detector, because this toolchain's race runtime crashes in that configuration. Interleavings are chosen by the Go scheduler (time dilation only spreads activities over simulated time): replay is seed-exact for stimuli and faults, best-effort for the interleaving (20 attempts).",
             "DESIGN.md §4.5, §5 C13", "netsim"),
     "C14": ("exploration",
